@@ -170,12 +170,15 @@ class ModbusUdpProtocol(protocol.DatagramProtocol):
 
         :param data: The data sent by the client
         """
-        _logger.debug("Client Connected [%s]" % addr)
+        _logger.debug("Client Connected [%s]" % (addr,))
         if _logger.isEnabledFor(logging.DEBUG):
             _logger.debug("Datagram Received: "+ hexlify_packets(data))
         if not self.control.ListenOnly:
             continuation = lambda request: self._execute(request, addr)
-            self.framer.processIncomingPacket(data, continuation)
+            units = self.store.slaves()
+            single = self.store.single
+            self.framer.processIncomingPacket(data, continuation,
+                                              single=single, unit=units)
 
     def _execute(self, request, addr):
         """ Executes the request and returns the result
@@ -197,7 +200,8 @@ class ModbusUdpProtocol(protocol.DatagramProtocol):
         #self.framer.populateResult(response)
         response.transaction_id = request.transaction_id
         response.unit_id = request.unit_id
-        self._send(response, addr)
+        if response.should_respond:
+            self._send(response, addr)
 
     def _send(self, message, addr):
         """ Send a request (string) to the network
